@@ -229,10 +229,10 @@ def scan_loop_exits(ck, prog, config, clause):
             if nd:
                 for b, lab in must_pass_edges(g, nd[0]):
                     op, l, r = atom_cmp(b.e, lab)
-                    if last_field(l) == 'length' and op == '==' and const_value(r) == 0:
+                    if last_field(l) == 'comp_length' and op == '==' and const_value(r) == 0:
                         okc = True
             ck.ob(clause, 'R2.loop-exit', vc.name, 'continue', okc,
-                  'a chunk is skipped only when it is the empty dictionary entry (length == 0)' if okc else
+                  'a chunk is skipped only when it is the empty dictionary entry (nothing stored: comp_length == 0)' if okc else
                   'a chunk can be skipped by the scan without being classified', s.file, s.line, config=config)
     ck.min_instances('exits of the chunk loop', n_exits, 3)
 
@@ -370,6 +370,9 @@ def run(ctx):
         main_loop = [s for s in walk_stmts(vc.body) if s.k == 'for'][0]
 
         verdict_store(ck, prog, config, 'C09-d')
+        # ---- g  a chunk is marked valid only under a digest comparison (or, for an entry with nothing stored, at all)
+        nvs = dlrules.valid_inventory(ck, prog, config, 'C09-g')
+        ck.min_instances('stores to zckChunk.valid', nvs, 10)
 
 
 CLAIM = {
